@@ -878,7 +878,19 @@ pub fn parse(lex_tokens: &Vec<LexerToken>) -> Result<ParseResult, CompilerError>
         check_composition(previous_second_def, secondary_definition, check_for_list, token)?;
 
         // done with previous, can update now
-        previous_second_def = secondary_definition;
+        // except white space and annotations after an operator that is still waiting for its right operand
+        // those create no node, the operator's assumed right would be left dangling or picked up by an unrelated node
+        let waiting_for_operand = match previous_second_def {
+            SecondaryDefinition::BinaryLeftToRight | SecondaryDefinition::BinaryRightToLeft | SecondaryDefinition::UnaryPrefix => true,
+            _ => false,
+        };
+        let is_trivia = match secondary_definition {
+            SecondaryDefinition::Whitespace | SecondaryDefinition::Annotation => true,
+            _ => false,
+        };
+        if !(waiting_for_operand && is_trivia) {
+            previous_second_def = secondary_definition;
+        }
 
         let (definition, parent, left, right) = match secondary_definition {
             SecondaryDefinition::None => implementation_error("Secondary definition of none shouldn't reach check.".to_string())?,
